@@ -188,6 +188,13 @@ type bailErrorStrategy struct {
 func (b *bailErrorStrategy) Recover(recognizer antlr.Parser, e antlr.RecognitionException) {}
 func (b *bailErrorStrategy) Sync(recognizer antlr.Parser)                                  {}
 
+// Any syntax error fails the document, so there is no point in trying to
+// repair the token stream by inserting or deleting a token (which costs time
+// and memory in proportion to the nesting depth, at every enclosing level).
+func (b *bailErrorStrategy) RecoverInline(recognizer antlr.Parser) antlr.Token {
+	panic(antlr.NewInputMisMatchException(recognizer))
+}
+
 // --------------------------------------------------------------------
 
 type cteListener struct {
